@@ -108,12 +108,29 @@ def fn_body(toks, name):
 BLOCK_HEADS = ("if", "match", "for", "while", "loop", "{", "unsafe")
 
 
+def skip_pattern(toks, i):
+    """`for <pat> in` / `if let <pat> =` / `while let <pat> =`: a pattern may contain braces that
+    are not the statement's block; return the index just after the pattern."""
+    n = len(toks)
+    if i < n and toks[i] == "for":
+        stop = "in"
+    elif i + 1 < n and toks[i] in ("if", "while") and toks[i + 1] == "let":
+        stop = "="
+    else:
+        return i
+    j = i + 1
+    while j < n and toks[j] != stop:
+        j = match_close(toks, j) + 1 if toks[j] in OPEN else j + 1
+    return j
+
+
 def statements(toks):
     """Split a block body into statements; returns list of (tokens, has_semicolon)."""
     out, i, n = [], 0, len(toks)
     while i < n:
         start = i
         blocklike = toks[i] in BLOCK_HEADS
+        i = skip_pattern(toks, i)
         while i < n:
             t = toks[i]
             if t in OPEN:
@@ -121,7 +138,7 @@ def statements(toks):
                 if t == "{" and blocklike:
                     # a block-like expression statement ends at its closing brace unless `else` follows
                     if j + 1 < n and toks[j + 1] == "else":
-                        i = j + 1
+                        i = skip_pattern(toks, j + 2) if toks[j + 2:j + 3] == ["if"] else j + 1
                         continue
                     if j + 1 < n and toks[j + 1] in (".", "?"):
                         blocklike = False
@@ -470,7 +487,7 @@ def read_validate(src):
         problems.append("validate.rs: %s" % e)
     # no other assignment to the flag / return anywhere in the function
     nret = sum(1 for t in body if t == "return")
-    nasg = sum(1 for q in range(len(body) - 1) if body[q] == flag and body[q + 1] == "=")
+    nasg = sum(1 for q in range(1, len(body) - 1) if body[q] == flag and body[q + 1] == "=" and body[q - 1] != "mut")
     if nret > 1 or nasg > 1:
         problems.append("validate.rs: %d returns / %d flag assignments (at most one of each is understood)" % (nret, nasg))
     return out, problems
@@ -493,3 +510,144 @@ def gen_cli(repo):
         "Definition validate_result : vexpr := %s.           (* tail expression *)\n"
         % (MAIN_RS, ";\n    ".join(steps), VALIDATE_RS, val["init"], val["on_failure"], val["on_error"], val["result"]))
     return "GenCli.v", text, p1 + p2
+
+
+# ================================================================ GenSer.v (C26)
+
+SERIALIZE_RS = "crates/aranya-policy-vm/src/serialize.rs"
+VM_DATA_RS = "crates/aranya-policy-vm/src/data.rs"
+MODULE_DATA_RS = "crates/aranya-policy-module/src/data.rs"
+ID_RS = "crates/aranya-id/src/id.rs"
+
+
+def coq_str(s):
+    return '"%s"' % s.replace('"', '""')
+
+
+def non_test(src):
+    """source text without the trailing `#[cfg(test)] mod ... { }`"""
+    i = src.find("#[cfg(test)]")
+    return src if i < 0 else src[:i]
+
+
+def match_arms(body, scrut_head):
+    """arms of the first `match <scrut_head...> {` in a token list -> list of (pattern tokens, body tokens)"""
+    for i in range(len(body)):
+        if body[i] == "match" and body[i + 1:i + 1 + len(scrut_head)] == scrut_head:
+            j = body.index("{", i)
+            k = match_close(body, j)
+            arms, q = [], j + 1
+            while q < k:
+                p0 = q
+                while body[q] != "=>":
+                    q = match_close(body, q) + 1 if body[q] in OPEN else q + 1
+                pat = body[p0:q]
+                q += 1
+                b0 = q
+                if body[q] == "{":
+                    q = match_close(body, q) + 1
+                else:
+                    while q < k and body[q] != ",":
+                        q = match_close(body, q) + 1 if body[q] in OPEN else q + 1
+                arms.append((pat, body[b0:q]))
+                if q < k and body[q] == ",":
+                    q += 1
+            return arms
+    raise ValueError("no `match %s`" % " ".join(scrut_head))
+
+
+PANIC_TOKENS = {"unwrap", "expect", "panic!", "unreachable!", "todo!", "unimplemented!", "assert!", "assert_eq!",
+                "assert_ne!", "debug_assert!", "debug_assert_eq!", "copy_from_slice", "split_at", "split_at_mut"}
+
+
+def panic_sites(toks):
+    """panic-capable constructs of a token stream: named calls/macros, `as` casts, indexing, unchecked arithmetic"""
+    out = []
+    cur_fn = "<item>"
+    for i, t in enumerate(toks):
+        if t in ("fn", "const") and i + 1 < len(toks) and re.match(r"[A-Za-z_]", toks[i + 1]):
+            cur_fn = toks[i + 1]
+        if t in PANIC_TOKENS:
+            out.append("%s in %s" % (t, cur_fn))
+        elif t == "as" and i + 1 < len(toks) and re.fullmatch(r"[ui](8|16|32|64|128|size)", toks[i + 1]):
+            out.append("as %s in %s" % (toks[i + 1], cur_fn))
+        elif t == "[" and i > 0 and (re.match(r"[A-Za-z_)\]]", toks[i - 1]) and toks[i - 1] not in ("mut", "const", "in", "return", "let", "as")) \
+                and not toks[i - 1].endswith("!") and toks[i - 1] != "#" and (i < 2 or toks[i - 2] != "#"):
+            # `x[..]` indexing (attributes `#[..]`, array types/literals are excluded by the preceding token)
+            if toks[i - 1] not in ("&", "<", ",", "(", "=", ":"):
+                out.append("index %s[..] in %s" % (toks[i - 1], cur_fn))
+        elif t in ("+", "-", "*", "/", "%", "<<", ">>") and i > 0 and toks[i - 1] not in ("(", ",", "=", "return", "=>", "{", "[", "&", "*", "->", ":", "<"):
+            if not (t == "-" and toks[i + 1:i + 2] == [">"]) and not (t == "*" and toks[i - 1] in ("&&", "||", "!", ";", "|")):
+                out.append("arith %s in %s" % (t, cur_fn))
+    return out
+
+
+@gen.generator
+def gen_ser(repo):
+    problems = []
+    ser_src = gen.read(repo, SERIALIZE_RS)
+    tk = gen.enum_variants(gen.read(repo, MODULE_DATA_RS), "TypeKind")
+    vv = gen.enum_variants(gen.read(repo, VM_DATA_RS), "Value")
+    se = gen.enum_variants(ser_src, "SerializeError")
+    de = gen.enum_variants(ser_src, "DeserializeError")
+    for nm, x in (("TypeKind", tk), ("Value", vv), ("SerializeError", se), ("DeserializeError", de)):
+        if not x:
+            problems.append("GenSer: enum %s not found" % nm)
+    tk, vv, se, de = tk or [], vv or [], se or [], de or []
+    norm = lambda p: re.sub(r"\s+", "", re.sub(r"#\[[^\]]*\]", "", p))
+    # ID_SIZE
+    id_size = "0 (* not found *)"
+    m = re.search(r"const\s+ID_SIZE\s*:\s*u8\s*=\s*([^;]+);", ser_src)
+    m2 = re.search(r"pub struct Id<[^>]*>\s*\{\s*bytes:\s*\[u8;\s*(\d+)\]", gen.read(repo, ID_RS))
+    m3 = re.search(r"custom_id!\s*\{[^}]*pub struct BaseId;", gen.read(repo, ID_RS), re.S)
+    if not m or re.sub(r"\s+", "", m.group(1)) != "size_of::<BaseId>()asu8":
+        problems.append("GenSer: ID_SIZE is no longer `size_of::<BaseId>() as u8`")
+    elif not m2 or not m3:
+        problems.append("GenSer: cannot find the byte array of aranya_id::Id / the BaseId declaration")
+    elif int(m2.group(1)) > 255:
+        problems.append("GenSer: BaseId is %s bytes: `as u8` truncates" % m2.group(1))
+    else:
+        id_size = m2.group(1)
+    # the arms of serialize_value / deserialize_value
+    ser_arms, de_arms = [], []
+    try:
+        toks = tokens(non_test(ser_src))
+        for pat, body in match_arms(fn_body(toks, "serialize_value"), ["v"]):
+            names = [pat[i + 2] for i in range(len(pat) - 2) if pat[i] == "Value" and pat[i + 1] == "::"]
+            if not names:
+                problems.append("GenSer: serialize_value arm without Value:: pattern: %s" % txt(pat))
+            cls = "InternalValue" if contains_seq(body, ["SerializeError", "::", "InternalValue"]) else \
+                  ("error" if "Err" in body and "match" not in body else "encodes")
+            ser_arms += [(n, cls) for n in names]
+        for pat, body in match_arms(fn_body(toks, "deserialize_value"), ["kind"]):
+            names = [pat[i + 2] for i in range(len(pat) - 2) if pat[i] == "TypeKind" and pat[i + 1] == "::"]
+            if not names:
+                problems.append("GenSer: deserialize_value arm without TypeKind:: pattern: %s" % txt(pat))
+            cls = "BadInput" if body[:2] == ["return", "Err"] and "Bad" in body and len(body) <= 6 else "decodes"
+            de_arms += [(n, cls) for n in names]
+        sites = panic_sites(toks)
+    except (ValueError, IndexError) as e:
+        problems.append("GenSer: serialize.rs: %s" % e)
+        sites = ["<unreadable>"]
+    pairs = lambda xs: "[ " + ";\n    ".join("(%s, %s)" % (coq_str(a), coq_str(b)) for a, b in xs) + " ]"
+    text = gen.HEADER.replace("tools/gen.py", "tools/gen_codec_cli.py") + (
+        "Local Open Scope string_scope.\n\n"
+        "(* %s : `bytes: [u8; N]` of aranya_id::Id; serialize.rs: ID_SIZE = size_of::<BaseId>() as u8 *)\n"
+        "Definition id_size : N := %s.\n\n"
+        "(* %s : enum TypeKind, variants in declaration order with their payload *)\n"
+        "Definition typekind_variants : list (string * string) :=\n  %s.\n\n"
+        "(* %s : enum Value *)\n"
+        "Definition value_variants : list (string * string) :=\n  %s.\n\n"
+        "(* %s : the arms of SerializeCtx::serialize_value (variant, what the arm does) *)\n"
+        "Definition serialize_value_arms : list (string * string) :=\n  %s.\n\n"
+        "(* the arms of DeserializeCtx::deserialize_value *)\n"
+        "Definition deserialize_value_arms : list (string * string) :=\n  %s.\n\n"
+        "Definition serialize_errors : list string := [ %s ].\n"
+        "Definition deserialize_errors : list string := [ %s ].\n\n"
+        "(* panic-capable constructs in the non-test part of serialize.rs *)\n"
+        "Definition panic_sites_serialize_rs : list string := [ %s ].\n"
+        % (ID_RS, id_size, MODULE_DATA_RS, pairs([(a, norm(b)) for a, b in tk]), VM_DATA_RS, pairs([(a, norm(b)) for a, b in vv]),
+           SERIALIZE_RS, pairs(ser_arms), pairs(de_arms),
+           "; ".join(coq_str(a) for a, _ in se), "; ".join(coq_str(a) for a, _ in de),
+           "; ".join(coq_str(s) for s in sites)))
+    return "GenSer.v", text, problems
